@@ -182,6 +182,7 @@ type Exec struct {
 	visitedBlocks map[*ssa.BasicBlock]bool
 	sinkArgs      []*Val
 	sinkHit       map[string]bool // sink clauses whose callee was reached on some path
+	seenCalls     map[string]bool // canonical names under which a call was counted on some path
 	allocBase0  *Term
 	topMods     []modTarget
 	autoHeader  []autoMark
